@@ -51,6 +51,9 @@ def skeletons():
         ['set', L], ['frozenset', L], ['list'], ['tuple'], ['set'], ['dict'], ['call', L], ['call', L, ('kw', L)],
         ['call', ['list', L]], ['list', ['dict', (L, L)]], ['dict', (L, L), (L, L), (L, L)],
         ['list', L, L, L], ['tuple', ['list', L, L]], ['dict', (L, ['tuple', L])],
+        # calls whose sole argument is a container (the printers treat a sole argument specially), commented on both levels
+        ['call', ['dict', (L, L)]], ['call', ['tuple', L, L]], ['list', ['call', ['list', L, L]]],
+        ['dict', (L, ['call', ['dict', (L, L)]])], ['call', ['call', ['list', L]]], ['call', ['list', L], ('kw', ['list', L])],
     ]
 
 
@@ -111,7 +114,8 @@ class Builder:
                     vp, vc = self.build(x)
                     args_p.append(vp)
                     args_c.append(vc)
-            return G(*args_p, **kw_p), G(*args_c, **kw_c)
+            # (the printer of G takes no trailing_comment: only comment() applies to the call itself)
+            return G(*args_p, **kw_p), self.annotate(G(*args_c, **kw_c), False)
         items = [self.build(x) for x in sk[1:]]
         ps = [a for a, _ in items]
         cs = [b for _, b in items]
